@@ -89,6 +89,9 @@ def getattr(I, st, v, name):
             if m is not None:
                 yield st, bind_member(I, st, m, v, e.cls)
                 return
+            if where is not None:
+                yield st, None  # a class attribute whose value is None (e.g. `function = None`)
+                return
             ga, _ = I.class_lookup(e.cls, "__getattr__")
             if ga is not None:
                 yield from I.call(ga, [v, name], {}, st)
